@@ -6,12 +6,14 @@ import (
 	"encoding/binary"
 	"encoding/hex"
 	"fmt"
+	"io"
 	"os"
 	"reflect"
 	"sort"
 	"strings"
 	"sync"
 	"testing"
+	"testing/iotest"
 
 	"github.com/tonkeeper/tongo/liteclient"
 	"github.com/tonkeeper/tongo/tl"
@@ -310,6 +312,21 @@ func checkValue(c *core.Ctx, su *setup, t *target, v *tlref.Value, stale func(f 
 	}
 	if err := decodeInto(want, "reference bytes"); err != nil {
 		return err
+	}
+	// the same bytes delivered in small chunks, the way a network reader hands them over
+	{
+		p := reflect.New(t.goType)
+		chunked := io.Reader(iotest.OneByteReader(bytes.NewReader(want)))
+		if len(want)%2 == 1 {
+			chunked = iotest.HalfReader(bytes.NewReader(want))
+		}
+		if err := tl.Unmarshal(chunked, p.Interface()); err != nil {
+			return fmt.Errorf("%s: tl.Unmarshal of the reference bytes from a reader that returns short reads: %v\nvalue %s", t.name, err, v)
+		}
+		back, err := tlbind.FromGo(s, t.typeExpr(), p.Elem())
+		if err != nil || !tlref.Equal(back, v) {
+			return fmt.Errorf("%s: tl.Unmarshal from a reader that returns short reads gives another value (%v)\n  %v\nwant\n  %s", t.name, err, back, v)
+		}
 	}
 	// the same bytes followed by the next value of a stream: nothing beyond the value may be consumed
 	if err := decodeInto(append(append([]byte{}, want...), 0xb5, 0x75, 0x72, 0x99, 1, 2, 3), "reference bytes followed by other data"); err != nil {
